@@ -27,13 +27,18 @@ RULE = ("closed document sets with a random subset of node elements or whole fil
 NID = re.compile(r"(?:ns=\d+;)?[isgb]=[^\s]+")
 
 
+BUILD_COUNT = [0]
+
+
 def build(files, scratch, name):
     from opcua_tools import UAGraph
     d = scratch.sub(name)
     scratch.write(d, files, with_base=True)
     paths = sorted(os.path.join(d, f) for f in os.listdir(d))
+    BUILD_COUNT[0] += 1
     try:
-        return {"graph": UAGraph.from_file_list(paths)}
+        # both constructors promise the same closure check: they are used alternately
+        return {"graph": UAGraph.from_file_list(paths) if BUILD_COUNT[0] % 2 else UAGraph.from_path(d)}
     except ValueError as e:
         return {"err": "ValueError", "msg": str(e)}
     except Exception as e:  # noqa: BLE001
